@@ -134,33 +134,3 @@ Proof.
   pose proof (all_from_spec _ _ _ leaf_err_sweep i ltac:(rewrite Z2Nat.id; lia)) as S. unfold leaf_err_ok in S.
   pose proof (all_from_spec _ _ _ S d ltac:(rewrite Z2Nat.id; lia)) as S2. cbv beta in S2. lia.
 Qed.
-
-(* ---------- clock time: rdsparser_ct_init and rdsparser_ct_get_offset ---------- *)
-Lemma to_s32w_eq x : 0 <= x < 4294967296 -> to_s32w x = to_s32 x.
-Proof. intros H. unfold to_s32w, to_s32. rewrite Z.mod_small by lia. reflexivity. Qed.
-Lemma to_u32_range x : 0 <= to_u32 x < 4294967296.
-Proof. unfold to_u32. apply Z.mod_pos_bound. lia. Qed.
-Lemma to_s16_small x : -32768 <= x < 32768 -> to_s16 x = x.
-Proof. intros H. unfold to_s16. cbv zeta. destruct (x mod 65536 <? 32768) eqn:E; lia. Qed.
-
-(* the result of the C function (return value, then the fields it wrote) as the model's value *)
-Definition ct_view (r : Z * Z * Z * Z * Z * Z * Z) : option arg :=
-  let '(ret, day, month, year, h, mi, off) := r in
-  if ret =? 0 then None else Some (ACT year month day h mi (c_ct_get_offset off)).
-
-Theorem leaf_ct_init mjd hour minute offset :
-  0 <= mjd < 4294967296 -> -128 <= hour < 128 -> -128 <= minute < 128 -> -128 <= offset < 128 ->
-  ct_view (c_ct_init mjd hour minute offset) = ct_init mjd hour minute offset.
-Proof.
-  intros Hm Hh Hmi Ho. unfold c_ct_init, ct_init, ct_view. cbv zeta. rewrite !Z.geb_leb.
-  destruct ((24 <=? hour) || (60 <=? minute)); [reflexivity|].
-  set (m1 := to_s8 (minute + Z.rem offset 2 * 30)).
-  destruct (60 <=? m1) eqn:C1; [|destruct (m1 <? 0) eqn:C2].
-  all: cbv beta iota.
-  all: match goal with |- context [to_s8 (?h + Z.quot ?o 2)] => set (h2 := to_s8 (h + Z.quot o 2)) end.
-  all: destruct (24 <=? h2) eqn:C3; [|destruct (h2 <? 0) eqn:C4].
-  all: cbv beta iota.
-  all: rewrite to_s32w_eq by (first [apply to_u32_range | exact Hm]).
-  all: unfold c_ct_get_offset; rewrite to_s16_small by lia.
-  all: cbn [Z.eqb]; reflexivity.
-Qed.
